@@ -17,6 +17,11 @@ RULE = ("EAN inputs of all four lengths (7/8/12/13 digits incl. every check-digi
         "the scale chain must equal it; non-trivial = accepted input; distinct = distinct case line")
 
 
+def gaps_mod():
+    import gaps
+    return gaps
+
+
 def sizes(rng, w):
     k = rng.randrange(0, 4)
     out = []
@@ -61,6 +66,19 @@ def cases(tier, rng):
     for _ in range(n // 2):
         r = c05.markov(rng, rng.choice([30, 40, 50, 60, 70, 79, 80, rng.randrange(1, 81)]))
         lines.append("cs %s %s %s" % (sizes(rng, 900), rng.choice(["c128", "c128", "c128n"]), c05.enc(r)))
+    # contents that need a code-set change at almost every rune: more than 128 symbol characters within 80 runes
+    for t in gaps_mod().c128_many_switches():
+        lines.append("cs %s c128 %s" % (sizes(rng, 2000), J.hx(t)))
+    # Code 39 with check character at every length whose check character lies around a multiple of 4096 modules
+    # (13 modules per character incl. gap: 315, 630, 1260 characters), so that a storage boundary hits IT
+    for centre in ((315, 630) if tier == "quick" else (315, 630, 1260, 2520)):
+        for L in range(centre - 4, centre + 2):
+            lines.append("cs - c39 1 0 %s" % J.hx("".join(rng.choice("0123456789ABCDEFGHIJKLMNOPQRSTUVWXYZ") for _ in range(L))))
+    # scaling to very large images (no pixel is read by this check: CheckSum() and the type must survive)
+    for big in ("4096x1024", "2048x2048", "3000x1500,6000x3000", "1000x1,70000x64"):
+        lines.append("cs %s ean %s" % (big, J.hx("%07d" % rng.randrange(10 ** 7))))
+        lines.append("cs %s c128 %s" % (big, J.hx("Hello-%d" % rng.randrange(1000))))
+        lines.append("cs %s c39 1 0 %s" % (big, J.hx("CODE39")))
     # long Code 39 contents (the modulo-43 sum of up to 300 values of up to 42)
     for L in (6, 7, 30, 50, 100, 200, 300):
         for ch in "%+/Z0":
